@@ -11,12 +11,18 @@ pub const RULE: &str = "C01's generator with flush-heavy schedules: PARTIAL/SYNC
 
 pub fn case(tape: &[u8], ctx: &Ctx) -> Outcome {
     let mut o = Outcome::new();
+    let (tape, copy) = split_copy_suffix(tape);
     let mut t = Tape::new(tape);
     let mut po = PlanOpts::standard();
     po.flush_heavy = true;
     po.allow_dict = true;
     po.allow_gz_header = true;
-    let plan = gen_plan(&mut t, &po);
+    let mut plan = gen_plan(&mut t, &po);
+    if let Some(b) = copy {
+        apply_copy(&mut plan, b);
+        o.class("session with deflateCopy-and-continue");
+    }
+    let plan = plan;
     let api = t.below(8);
     ARENAS.with(|ar| {
         let (run, api_name) = if api == 0 {
